@@ -54,6 +54,9 @@ var w6World = driver.World{
 func pk[T any](r *rand.Rand, xs ...T) T { return xs[r.IntN(len(xs))] }
 
 func w6Gen(r *rand.Rand, prop, tier string) *simrt.Case {
+	if prop == "C07" || prop == "C34" {
+		return w6GenDecode(r, prop)
+	}
 	c := &simrt.Case{Config: map[string]int64{}}
 	cfg := c.Config
 	cfg["seed"] = int64(r.Uint32())
@@ -131,6 +134,20 @@ func w6Run(t *testing.T, c *simrt.Case, prop string, keepTrace bool) simrt.Resul
 		w.setup()
 	}, nil)
 	simetcd.Install(nil)
+	if len(res.Stats.TaskPanics) > 0 && res.Violation == nil && prop == "C34" {
+		msg := res.Stats.TaskPanics[0]
+		lines := strings.Split(msg, "\n")
+		var keep []string
+		for _, l := range lines {
+			if (strings.Contains(l, "iceberg-processor/internal/") || strings.Contains(l, "platform/pkg/storage")) && !strings.Contains(l, "zz_w6i") {
+				keep = append(keep, strings.TrimSpace(l))
+			}
+		}
+		if len(keep) > 3 {
+			keep = keep[:3]
+		}
+		res.Violation = &simrt.Violation{Property: "C34", Clause: "decoder-panicked", Detail: lines[0] + " @ " + strings.Join(keep, " <- ")}
+	}
 	if res.Violation != nil && res.Violation.Property != prop {
 		res.Stats.Probes["foreign:"+res.Violation.Property+"/"+res.Violation.Clause]++
 		res.Violation = nil
@@ -345,6 +362,10 @@ func (w *w6) faults() int {
 
 func (w *w6) setup() {
 	s := w.sim
+	if w.cfg("decode_mode", 0) == 1 {
+		w.runDecodeOps()
+		return
+	}
 	w.rnd = rand.New(rand.NewPCG(uint64(w.cfg("seed", 1)), 17))
 	w.tcur = 1_700_000_000_000
 	w.s3 = sims3.New("s3", 300)
